@@ -679,8 +679,8 @@ Theorem table_eq_on_demand_refuted :
     length table <> length freqs /\
     (forall f, In f freqs -> gf_value Z Zops Ztols s' (fst (fst f)) (snd (fst f)) (snd f) = Done 0%Z).
 Proof.
-  exists (wit_parts wit_none), [(1, 3, 5)%Z], false. vm_compute. do 2 eexists.
-  split; [reflexivity|]. split; [discriminate|]. intros f [<-|[]]. reflexivity.
+  exists (wit_parts wit_none), [(1, 3, 5)%Z], false, [], {| g_status := Computed; g_parts := []; g_vanishing := true |}.
+  split; [vm_compute; reflexivity|]. split; [discriminate|]. intros f [<-|[]]. reflexivity.
 Qed.
 
 (** (2) non-vanishing component, empty frequency list (this is also the default call compute()):
@@ -776,6 +776,17 @@ Proof.
       rewrite (total_perm (a ++ e :: b) (e :: a ++ b)) by (apply Permutation_sym, Permutation_middle).
       cbn [total fold_right]. fold (total (a ++ b)).
       rewrite madd_assoc. f_equal. apply madd_comm.
+Qed.
+(** a whole sequence of add_term calls with the repaired add_term: nothing refused, the total weight is conserved *)
+Theorem add_terms_retry_conserves : forall ts n l,
+  exists l', add_terms_gen T comp plus negl true ts (n, l) = (n, l') /\ total l' = madd (total l) (total ts).
+Proof.
+  induction ts as [|t r IH]; intros n l.
+  - exists l. split; [reflexivity|]. cbn [total fold_right]. rewrite madd_comm, madd_0. reflexivity.
+  - cbn [add_terms_gen snd fst]. unfold add_term_gen.
+    destruct (add_term_loop_conserves (length l) t l (le_n _)) as [l1 [E1 H1]]. rewrite E1.
+    destruct (IH n l1) as [l' [E' H']]. exists l'. split; [exact E'|].
+    rewrite H', H1. cbn [total fold_right]. fold (total r). rewrite madd_assoc. reflexivity.
 Qed.
 End Conservation.
 
@@ -984,3 +995,35 @@ Qed.
 
 End Keys.
 End TermListTheory.
+
+(** * Weight IS lost by add_term as it is in the repository when the separation hypothesis fails: a witness.
+    Integer poles, tolerance 10: the terms with first pole 0 and 12 are stored separately (12 >= 10 apart); the term with
+    pole 6 is equivalent to the first, the reduced term moves to the weighted mean 3, which is equivalent to the stored
+    term at 12 (|12 - 3| < 10): std::set::insert refuses it, and the weight of two of the three terms is gone. *)
+Definition loss_terms : list (nrterm Z) := [mk_nr Z 1 0 0 0 false; mk_nr Z 1 12 0 0 false; mk_nr Z 1 6 0 0 false]%Z.
+Definition coeff_total (l : list (nrterm Z)) : Z := fold_right (fun t acc => (nr_coeff Z t + acc)%Z) 0%Z l.
+
+Theorem chi_termlist_loss_witness :
+  let r := add_terms_gen (nrterm Z) (nr_comp Z Zops 10%Z) (nr_plus Z Zops) (nr_negl Z Zops 0%Z) false loss_terms (O, []) in
+  fst r = 1%nat /\ coeff_total (snd r) = 1%Z /\ coeff_total loss_terms = 3%Z.
+Proof. vm_compute. repeat split. Qed.
+
+(** the repaired add_term on the same input: nothing refused, nothing lost *)
+Theorem chi_termlist_retry_witness :
+  let r := add_terms_gen (nrterm Z) (nr_comp Z Zops 10%Z) (nr_plus Z Zops) (nr_negl Z Zops 0%Z) true loss_terms (O, []) in
+  fst r = O /\ coeff_total (snd r) = 3%Z.
+Proof. vm_compute. repeat split. Qed.
+
+(** unconditional conservation of the coefficient sum by the repaired add_term, for the non-resonant terms over any
+    commutative ring of coefficients and ANY tolerance (when no term is dropped as negligible) *)
+Theorem chi_termlist_retry_no_loss (K : Type) (NO : numops K)
+  (kadd_assoc : forall a b c, nadd K NO a (nadd K NO b c) = nadd K NO (nadd K NO a b) c)
+  (kadd_comm : forall a b, nadd K NO a b = nadd K NO b a)
+  (kadd_0 : forall a, nadd K NO (n0 K NO) a = a)
+  (tol : K) (ts : list (nrterm K)) (n : nat) (l : list (nrterm K)) :
+  exists l', add_terms_gen (nrterm K) (nr_comp K NO tol) (nr_plus K NO) (fun _ _ => false) true ts (n, l) = (n, l') /\
+    total (nrterm K) K (nadd K NO) (n0 K NO) (nr_coeff K) l' =
+    nadd K NO (total (nrterm K) K (nadd K NO) (n0 K NO) (nr_coeff K) l) (total (nrterm K) K (nadd K NO) (n0 K NO) (nr_coeff K) ts).
+Proof.
+  apply add_terms_retry_conserves; try assumption; reflexivity.
+Qed.
